@@ -41,7 +41,7 @@ def tiny_png(path, w=3, h=2):
 # generic coloured document
 # --------------------------------------------------------------------------------------
 
-def build_color_doc(spec, shared=None, shared_page=None):
+def build_color_doc(spec, shared=None, shared_page=None, shared_subline=None):
     """spec: dict(path, sections=[dict(n, m, text, bg, brd)], comp={name: [text, bg, font]}, nrow)
     comp names: title subline header footnote source pghdr pgftr.  Returns RTFDocument."""
     import polars as pl
@@ -64,7 +64,9 @@ def build_color_doc(spec, shared=None, shared_page=None):
     comp = spec.get("comp", {})
     kw = {}
     kw["rtf_title"] = rtf.RTFTitle(text="~T~", **comp_kw("title")) if "title" in comp else None
-    if "subline" in comp:
+    if shared_subline is not None:
+        kw["rtf_subline"] = shared_subline
+    elif "subline" in comp:
         kw["rtf_subline"] = rtf.RTFSubline(text="~SL~", **comp_kw("subline"))
     if "pghdr" in comp:
         kw["rtf_page_header"] = rtf.RTFPageHeader(text="~PH~", **comp_kw("pghdr"))
@@ -92,6 +94,8 @@ def build_color_doc(spec, shared=None, shared_page=None):
                           schema={c: pl.Utf8 for c in cols})
         if s.get("bad_group"):
             df = df.with_columns(pl.Series(cols[0], ["a", "b", "a"][:n]))
+        for j, vals in (s.get("colvals") or {}).items():
+            df = df.with_columns(pl.Series(cols[int(j)], [vals[r % len(vals)] if len(vals) < n else vals[r] for r in range(n)]))
         bkw = {}
         if s.get("text"):
             bkw["text_color"] = s["text"]
@@ -105,6 +109,10 @@ def build_color_doc(spec, shared=None, shared_page=None):
             bkw["text_font"] = s["font"]
         if s.get("group_by"):
             bkw["group_by"] = s["group_by"]
+        if s.get("subline_by"):
+            bkw["subline_by"] = s["subline_by"]
+        if s.get("page_by"):
+            bkw["page_by"] = s["page_by"]
         if spec.get("body_border_last") is not None:
             bkw["border_last"] = spec["body_border_last"]
         body = shared if (shared is not None and si == 0) else rtf.RTFBody(**bkw)
@@ -260,10 +268,25 @@ POOL = {
     # two documents on one caller-owned RTFPage: a plain table, and a multi-section document whose SECOND section
     # cannot be encoded (non-contiguous group_by), so that its encode fails half-way
     "pgshare": dict(path="single", sections=[dict(n=3, m=2)], comp={"title": ["", "", 0]}),
+    # two documents on one caller-owned RTFSubline (a text component that refers to the table for its indentation)
+    "subA": dict(path="single", sections=[dict(n=2, m=2)], comp={}),
+    "subB": dict(path="single", sections=[dict(n=3, m=1)], comp={}),
+    # subline_by together with page_by, new_page left at its default
+    "sublpb": dict(path="single", sections=[dict(n=4, m=3, colvals={"0": ["s1", "s1", "s2", "s2"], "1": ["p1", "p2", "p1", "p2"]},
+                                                 subline_by=["~D1.1~"], page_by=["~D1.2~"])], comp={}),
+    # group_by on different columns, a group continuing over a page break
+    "grpA": dict(path="single", sections=[dict(n=5, m=2, colvals={"0": ["g1", "g1", "g1", "g1", "g2"]}, group_by=["~D1.1~"])], comp={}, nrow=4),
+    "grpB": dict(path="single", sections=[dict(n=4, m=2, colvals={"1": ["h1", "h1", "h1", "h2"]}, group_by=["~D1.2~"])], comp={}, nrow=3),
     "pgfail": dict(path="multi", sections=[dict(n=2, m=2), dict(n=3, m=2, group_by=["~D2.1~"], bad_group=True)], comp={}),
 }
 SHARED_FAMILY = {"share1": "b", "share2": "b", "share3": "b", "sharew2": "w", "sharew3": "w"}
 SHARED_PAGE = {"pgshare", "pgfail"}        # documents built on one caller-owned RTFPage object
+SHARED_SUBLINE = {"subA", "subB"}          # documents built on one caller-owned RTFSubline object
+
+
+def new_shared_subline():
+    import rtflite as rtf
+    return rtf.RTFSubline(text="~SL~")
 
 
 def new_shared_page():
@@ -276,7 +299,7 @@ def new_shared_body(fam):
     return rtf.RTFBody() if fam == "b" else rtf.RTFBody(col_rel_width=[1])
 
 
-def build_pool_doc(name, shared_body=None, tmpdir=None, shared_page=None):
+def build_pool_doc(name, shared_body=None, tmpdir=None, shared_page=None, shared_subline=None):
     import polars as pl
     spec = dict(POOL[name])
     if tmpdir:
@@ -286,4 +309,5 @@ def build_pool_doc(name, shared_body=None, tmpdir=None, shared_page=None):
         df = pl.DataFrame({"~D1.1~": ["a", "b", "a"], "~D1.2~": ["c1.1.2", "c1.2.2", "c1.3.2"]})
         return rtf.RTFDocument(df=df, rtf_body=rtf.RTFBody(group_by=["~D1.1~"], text_color="grey39"), rtf_title=None)
     return build_color_doc(spec, shared=shared_body if name in SHARED_FAMILY else None,
-                           shared_page=shared_page if name in SHARED_PAGE else None)
+                           shared_page=shared_page if name in SHARED_PAGE else None,
+                           shared_subline=(shared_subline if shared_subline is not None else new_shared_subline()) if name in SHARED_SUBLINE else None)
